@@ -72,6 +72,17 @@ def builder_q(name, defines, budget=600, tiers=('quick', 'thorough')):
                          'time_offset(exp)?, header typ?, header alg?, claim iat?, claim exp?, setkey, setcb', 'clock': '[0,2^61]'})
 
 
+GNUTLS_UNITS = ['libjwt/gnutls/sign-verify.c', 'libjwt/jwt-memory.c']
+GNUTLS_MODELS = ['alloc', 'jansson_model', 'env', 'gnutls_stubs']
+
+
+def gnutls_q(name, defines, unwind=140, budget=600, tiers=('quick', 'thorough'), checks='memsafe-noconv'):
+    return Query(name, 'prov_gnutls.c', GNUTLS_UNITS, models=GNUTLS_MODELS, defines=['VF_EXACT_END', 'VF_CAP=136'] + list(defines),
+                 unwind=unwind, checks=checks, budget=budget, tiers=tiers,
+                 bounds={'algorithms': 'all 11 asymmetric (3 HMAC on the sign side)', 'pk algorithm of the key': 'any int',
+                         'signature length': '0..134 bytes', 'key bits': 'any size_t satisfying the C09 floor'})
+
+
 CORE_FUNCS = ['jwt_checker_new', 'jwt_checker_setkey', 'jwt_checker_setcb', 'jwt_checker_verify', '__setkey_check',
               'jwt_new', 'jwt_free', 'jwt_parse', 'jwt_parse_head', 'jwt_parse_payload',
               'jwt_base64uri_decode_to_json', 'jwt_verify_complete', '__verify_config_post', '__verify_claims',
@@ -105,6 +116,7 @@ class C01(Spec):
         else:
             qs.append(core_q('C01.core.L12', ['PROP_C01'], L=12))
             qs.append(core_q('C01.core.L16', ['PROP_C01'], L=16, budget=1800))
+        qs.append(gnutls_q('C01.gnutls.verify', ['SIDE_VERIFY']))
         return qs
 
 
@@ -227,7 +239,8 @@ class C12(Spec):
     def queries(self, tier, bld):
         m = ['alloc', 'jansson_model', 'env']
         b = {'name/env length': '<= 9 bytes, all byte values', 'id': 'all int'}
-        return [Query('C12.ops.name', 'ops.c', OPS_UNITS, models=m, defines=['SIDE_NAME'], unwind=12, bounds=b),
+        return [gnutls_q('C12.gnutls.verify', ['SIDE_VERIFY']), gnutls_q('C12.gnutls.sign', ['SIDE_SIGN']),
+                Query('C12.ops.name', 'ops.c', OPS_UNITS, models=m, defines=['SIDE_NAME'], unwind=12, bounds=b),
                 Query('C12.ops.id', 'ops.c', OPS_UNITS, models=m, defines=['SIDE_ID'], unwind=12, bounds=b),
                 Query('C12.ops.init', 'ops.c', OPS_UNITS, models=m, defines=['SIDE_INIT'], unwind=12, bounds=b)]
 
@@ -410,4 +423,14 @@ class C18(Spec):
         return qs
 
 
-PROPS.update({'C20': C20(), 'C18': C18(), 'C07': C07(), 'C16': C16(), 'C15': C15(), 'C12': C12(), 'C10': C10(), 'C11': C11(), 'C13': C13(), 'C19': C19(), 'C09': C09(), 'C04': C04(), 'C02': C02(), 'C03': C03(), 'C06': C06(), 'C14': C14()})
+class C05(Spec):
+    functions = ['gnutls_sign_sha_pem', 'gnutls_sign_sha_hmac', 'gnutls_verify_sha_pem']
+
+    def queries(self, tier, bld):
+        qs = [gnutls_q('C05.gnutls.sign_ec.%s' % a[8:], ['SIDE_SIGN_EC', 'ONLY_ALG=%s' % a], budget=900)
+              for a in ('JWT_ALG_ES256', 'JWT_ALG_ES384', 'JWT_ALG_ES512')]
+        qs.append(gnutls_q('C05.gnutls.sign', ['SIDE_SIGN']))
+        return qs
+
+
+PROPS.update({'C05': C05(), 'C20': C20(), 'C18': C18(), 'C07': C07(), 'C16': C16(), 'C15': C15(), 'C12': C12(), 'C10': C10(), 'C11': C11(), 'C13': C13(), 'C19': C19(), 'C09': C09(), 'C04': C04(), 'C02': C02(), 'C03': C03(), 'C06': C06(), 'C14': C14()})
